@@ -244,4 +244,155 @@ example (t : B) : V1.parseBytes (unk ++ t) = .ok ⟨unk, .unknown⟩ :=
 example (t : B) : Auto.parse (unk ++ t) = .v1 (.ok ⟨unk, .unknown⟩) :=
   ((auto_trailing (x := unk) t).2 _ (by decide)).1
 
+/-! ## Audit additions: "the bytes after the header are never interpreted", literally -/
+
+/-- **C04 (v1 text), header followed by anything.** The only thing the text entry point looks at
+beyond the header is whether the header ends on a character boundary of the whole string (always
+the case when the whole string is a `&str`, see `v1_str_header_append_valid`). No hypothesis on
+`x` itself. -/
+theorem v1_str_header_append {x : B} {h : V1.Header} (hp : V1.parseStr x = .ok h) (t : B)
+    (hb : Utf8.isCharBoundary (h.header ++ t) h.header.length = true) :
+    V1.parseStr (h.header ++ t) = .ok h := by
+  obtain ⟨c, rest, -, hlen, -, -, h3, h4, hph⟩ := v1_accepted_frozen_str hp
+  obtain ⟨hw, ht⟩ := window_append_frozen t h3 h4
+  rw [parseStr_ok_iff_window]
+  refine ⟨c + 2, hw, by rw [← hlen]; exact hb, ?_⟩
+  rw [ht, ← hlen, List.take_length]
+  exact hph
+
+/-- **C04 (v1 text), header followed by anything that makes a `&str`.** -/
+theorem v1_str_header_append_valid {x : B} {h : V1.Header} (hp : V1.parseStr x = .ok h) (t : B)
+    (hv : Utf8.valid (h.header ++ t) = true) : V1.parseStr (h.header ++ t) = .ok h := by
+  obtain ⟨-, -, -, hl⟩ := C01.str_accept_line hp
+  exact v1_str_header_append hp t (C01.boundary_after_line hl hv)
+
+/-- **C04, "bytes after the header are never interpreted"** (clause 1+2 combined, literal
+reading): for the three byte parsers the result on `header ++ t` does not depend on `t` (and is
+the accepted header). -/
+theorem result_is_function_of_header {x : B} (t₁ t₂ : B) :
+    (∀ h, V2.parse x = .ok h →
+      V2.parse (h.header ++ t₁) = V2.parse (h.header ++ t₂) ∧ V2.parse (h.header ++ t₁) = .ok h) ∧
+    (∀ h, V1.parseBytes x = .ok h →
+      V1.parseBytes (h.header ++ t₁) = V1.parseBytes (h.header ++ t₂) ∧
+      V1.parseBytes (h.header ++ t₁) = .ok h) ∧
+    (∀ h, Auto.parse x = .v2 (.ok h) →
+      Auto.parse (h.header ++ t₁) = Auto.parse (h.header ++ t₂) ∧
+      Auto.parse (h.header ++ t₁) = .v2 (.ok h)) ∧
+    (∀ h, Auto.parse x = .v1 (.ok h) →
+      Auto.parse (h.header ++ t₁) = Auto.parse (h.header ++ t₂) ∧
+      Auto.parse (h.header ++ t₁) = .v1 (.ok h)) := by
+  refine ⟨?_, ?_, ?_, ?_⟩
+  · intro h hp
+    have hh := (v2_trailing hp []).2.1
+    rw [(v2_trailing hh t₁).1, (v2_trailing hh t₂).1]
+    exact ⟨rfl, rfl⟩
+  · intro h hp
+    have hh := (v1_bytes_trailing hp []).2.1
+    rw [(v1_bytes_trailing hh t₁).1, (v1_bytes_trailing hh t₂).1]
+    exact ⟨rfl, rfl⟩
+  · intro h hp
+    have hh := ((auto_trailing (x := x) []).1 h hp).2
+    rw [((auto_trailing (x := h.header) t₁).1 h hh).1, ((auto_trailing (x := h.header) t₂).1 h hh).1]
+    exact ⟨rfl, rfl⟩
+  · intro h hp
+    have hh := ((auto_trailing (x := x) []).2 h hp).2
+    rw [((auto_trailing (x := h.header) t₁).2 h hh).1, ((auto_trailing (x := h.header) t₂).2 h hh).1]
+    exact ⟨rfl, rfl⟩
+
+/-- The same for the text entry point (and hence `FromStr for Header`), for continuations that
+make `&str`s. -/
+theorem result_is_function_of_header_str {x : B} {h : V1.Header} (hp : V1.parseStr x = .ok h)
+    (t₁ t₂ : B) (h₁ : Utf8.valid (h.header ++ t₁) = true) (h₂ : Utf8.valid (h.header ++ t₂) = true) :
+    V1.parseStr (h.header ++ t₁) = V1.parseStr (h.header ++ t₂) ∧
+    V1.parseStr (h.header ++ t₁) = .ok h ∧
+    V1.fromStrHeader (h.header ++ t₁) = V1.fromStrHeader (h.header ++ t₂) ∧
+    V1.fromStrAddresses (h.header ++ t₁) = V1.fromStrAddresses (h.header ++ t₂) := by
+  have e₁ := v1_str_header_append_valid hp t₁ h₁
+  have e₂ := v1_str_header_append_valid hp t₂ h₂
+  refine ⟨by rw [e₁, e₂], e₁, by rw [C01.fromStrHeader_eq, C01.fromStrHeader_eq, e₁, e₂], ?_⟩
+  simp only [V1.fromStrAddresses, e₁, e₂]
+
+/-- **C04, "for v1 the line through its CRLF"**: the accepted header is the input up to and
+including the byte after its first CR, that byte *is* LF, and these are the header's last two
+bytes — for the byte entry point, the text entry point and the auto-detecting parser. -/
+theorem v1_line_through_lf {x : B} :
+    (∀ h, V1.parseBytes x = .ok h → ∃ c, V1.firstCR x = some c ∧ c + 1 < x.length ∧
+        byteAt x c = CR ∧ byteAt x (c + 1) = LF ∧ h.header = x.take (c + 2) ∧
+        h.header = x.take c ++ [CR, LF]) ∧
+    (∀ h, V1.parseStr x = .ok h → ∃ c, V1.firstCR x = some c ∧ c + 1 < x.length ∧
+        byteAt x c = CR ∧ byteAt x (c + 1) = LF ∧ h.header = x.take (c + 2) ∧
+        h.header = x.take c ++ [CR, LF]) ∧
+    (∀ h, Auto.parse x = .v1 (.ok h) → ∃ c, V1.firstCR x = some c ∧ c + 1 < x.length ∧
+        byteAt x c = CR ∧ byteAt x (c + 1) = LF ∧ h.header = x.take (c + 2) ∧
+        h.header = x.take c ++ [CR, LF]) := by
+  have key : ∀ (h : V1.Header) (c : Nat) (rest : B), x = h.header ++ rest → h.header.length = c + 2 →
+      V1.firstCR x = some c → c + 1 < x.length → V1.CRLF.isSuffixOf h.header = true →
+      ∃ c, V1.firstCR x = some c ∧ c + 1 < x.length ∧
+        byteAt x c = CR ∧ byteAt x (c + 1) = LF ∧ h.header = x.take (c + 2) ∧
+        h.header = x.take c ++ [CR, LF] := by
+    intro h c rest hx hlen hcr hc hsuf
+    obtain ⟨body, hbody⟩ := List.isSuffixOf_iff_suffix.mp hsuf
+    have hbl : body.length = c := by
+      have := congrArg List.length hbody
+      simp only [List.length_append, V1.CRLF, List.length_cons, List.length_nil] at this
+      omega
+    have hx' : x = body ++ ([CR, LF] ++ rest) := by
+      rw [hx, ← hbody]; simp [V1.CRLF, CR, LF]
+    refine ⟨c, hcr, hc, ?_, ?_, ?_, ?_⟩
+    · rw [hx', byteAt_append_right (by omega), hbl, Nat.sub_self]; rfl
+    · rw [hx', byteAt_append_right (by omega), hbl, Nat.add_sub_cancel_left]; rfl
+    · rw [hx, ← hlen]; exact (List.take_left' rfl).symm
+    · rw [← hbody, hx', ← hbl, List.take_left' rfl]; rfl
+  refine ⟨?_, ?_, ?_⟩
+  · intro h hp
+    obtain ⟨c, rest, hx, hlen, h1, h2, -, -⟩ := v1_accepted_frozen hp
+    exact key h c rest hx hlen h1 h2 (C01.accepted_header_facts hp).2.1
+  · intro h hp
+    obtain ⟨c, rest, hx, hlen, h1, h2, -, -, -⟩ := v1_accepted_frozen_str hp
+    exact key h c rest hx hlen h1 h2 (C01.accepted_header_facts_str hp).2.1
+  · intro h hp
+    have hp1 := ((auto_v1_iff x _).mp hp).2
+    obtain ⟨c, rest, hx, hlen, h1, h2, -, -⟩ := v1_accepted_frozen hp1
+    exact key h c rest hx hlen h1 h2 (C01.accepted_header_facts hp1).2.1
+
+/-- **C04 (auto-detection), complete form**: `auto_trailing` together with "the header is a
+prefix of the input" and the number of bytes to remove (cf. `consumed_length`). -/
+theorem auto_trailing' {x : B} (t : B) :
+    (∀ h, Auto.parse x = .v2 (.ok h) →
+      Auto.parse (x ++ t) = .v2 (.ok h) ∧ Auto.parse h.header = .v2 (.ok h) ∧ h.header <+: x ∧
+        h.header.length = 16 + be16 (byteAt x 14) (byteAt x 15)) ∧
+    (∀ h, Auto.parse x = .v1 (.ok h) →
+      Auto.parse (x ++ t) = .v1 (.ok h) ∧ Auto.parse h.header = .v1 (.ok h) ∧ h.header <+: x ∧
+        (∃ c, V1.firstCR x = some c ∧ h.header.length = c + 2)) := by
+  constructor
+  · intro h hp
+    obtain ⟨k1, k2⟩ := (auto_trailing (x := x) t).1 h hp
+    obtain ⟨-, -, k3, k4⟩ := v2_trailing ((auto_v2_ok_iff x h).mp hp) t
+    exact ⟨k1, k2, k3, k4⟩
+  · intro h hp
+    obtain ⟨k1, k2⟩ := (auto_trailing (x := x) t).2 h hp
+    obtain ⟨-, -, k3, k4⟩ := v1_bytes_trailing ((auto_v1_iff x _).mp hp).2 t
+    exact ⟨k1, k2, k3, k4⟩
+
+/-! ### Non-vacuity of the additions -/
+
+example (t₁ t₂ : B) : V1.parseBytes (unk ++ t₁) = V1.parseBytes (unk ++ t₂) :=
+  ((result_is_function_of_header (x := unk ++ [0x47]) t₁ t₂).2.1 ⟨unk, .unknown⟩ (by decide)).1
+example (t₁ t₂ : B) : V2.parse (loc ++ t₁) = V2.parse (loc ++ t₂) :=
+  ((result_is_function_of_header (x := loc ++ [0x47]) t₁ t₂).1 locH (by decide)).1
+example (t₁ t₂ : B) : Auto.parse (loc ++ t₁) = Auto.parse (loc ++ t₂) :=
+  ((result_is_function_of_header (x := loc ++ [0x47]) t₁ t₂).2.2.1 locH (by decide)).1
+example (t₁ t₂ : B) : Auto.parse (unk ++ t₁) = Auto.parse (unk ++ t₂) :=
+  ((result_is_function_of_header (x := unk ++ [0x47]) t₁ t₂).2.2.2 ⟨unk, .unknown⟩ (by decide)).1
+/-- Text entry point: `PROXY UNKNOWN\r\n` followed by `€` or by `GET`. -/
+example : V1.parseStr (unk ++ [0xE2, 0x82, 0xAC]) = V1.parseStr (unk ++ [0x47, 0x45, 0x54]) :=
+  (result_is_function_of_header_str (x := unk) (h := ⟨unk, .unknown⟩) (by decide) _ _
+    (by decide) (by decide)).1
+/-- The boundary hypothesis of `v1_str_header_append` is needed: a continuation byte right after
+the header (not a `&str`) is `InvalidSuffix`. -/
+example : V1.parseStr (unk ++ [0x82]) = .error .invalidSuffix := by decide
+example : ∃ c, V1.firstCR (unk ++ [0x47]) = some c ∧ byteAt (unk ++ [0x47]) (c + 1) = LF :=
+  let ⟨c, h1, _, _, h4, _⟩ := (v1_line_through_lf (x := unk ++ [0x47])).1 ⟨unk, .unknown⟩ (by decide)
+  ⟨c, h1, h4⟩
+
 end C04
